@@ -53,8 +53,9 @@ def make_property(rng, sk, pk, widths, binding_sensitive=False):
         rng.shuffle(tps)
         alts = []
         mine = []
+        shared = alias_pool.pop(0) if (w >= 2 and rng.random() < (0.4 if binding_sensitive else 0.15)) else None
         for i in range(w):
-            alias = alias_pool.pop(0) if rng.random() < (0.9 if binding_sensitive else 0.5) else None
+            alias = shared or (alias_pool.pop(0) if rng.random() < (0.9 if binding_sensitive else 0.5) else None)
             k = rng.random()
             pred = None
             if binding_sensitive and pos == 'activator' and k < 0.7:
@@ -72,7 +73,8 @@ def make_property(rng, sk, pk, widths, binding_sensitive=False):
                 mine.append(alias)
         # only aliases bound by every alternative could be referenced later without the C14 known finding;
         # with distinct aliases per alternative that means: expose aliases of simple events only
-        bound[pos] = mine if w == 1 else []
+        # ... or one alias shared by every alternative (each of them binds it)
+        bound[pos] = mine if w == 1 else ([shared] if shared else [])
         events[pos] = alts[0] if w == 1 else ('disj', tuple(alts))
     tb = gen.pick(rng, (None, None, ('1', 's'), ('2', 's'), ('1', 's'), ('2', 's'), ('0', 's'), ('1500', 'ms')))
     if binding_sensitive and rng.random() < 0.7:
